@@ -2,6 +2,6 @@ package main
 
 func init() {
 	reg(propDef{ID: "C12", Test: "TestC12", Level: "fault_enumeration", Shards: [2]int{12, 16}, CapMin: [2]int{10, 60},
-		Rule: "the error catalogue is enumerated, not sampled: listener errors {address in use, Listen twice, closed, unusable address, TLS without config, TLS without certificate} and dialer errors {refused, asynchronous refused, Dial twice, closed, SP handshake failure from a raw peer, TLS verification failure} x transports (quick: tcp inproc tls+tcp vt; thorough: all six + vt), hook rejections on listener and dialer side per transport, and per protocol (24) a socket-level error script (bad options, timeouts, no peers, best effort, bad addresses, context errors, closed) and a zero-queue-length-with-traffic script. After the failing call every other call on the object runs under the stuck detector, the cause is corrected and the call retried on the same object, a good peer must connect and exchange, and a reflect/unsafe mutex probe TryLocks every lock reachable from the objects at quiescence. non-trivial = the error was provoked and all follow-ups ran; distinct = (kind, transport, error, protocol)",
+		Rule:   "the error catalogue is enumerated, not sampled: listener errors {address in use, Listen twice, closed, unusable address, TLS without config, TLS without certificate} and dialer errors {refused, asynchronous refused, Dial twice, closed, SP handshake failure from a raw peer, TLS verification failure} x transports (quick: tcp inproc tls+tcp vt; thorough: all six + vt), hook rejections on listener and dialer side per transport, and per protocol (24) a socket-level error script (bad options, timeouts, no peers, best effort, bad addresses, context errors, closed) and a zero-queue-length-with-traffic script. After the failing call every other call on the object runs under the stuck detector, the cause is corrected and the call retried on the same object, a good peer must connect and exchange, and a reflect/unsafe mutex probe TryLocks every lock reachable from the objects at quiescence. non-trivial = the error was provoked and all follow-ups ran; distinct = (kind, transport, error, protocol)",
 		Assume: append([]string{"'every path from a lock acquisition to a return' is decided only for executed paths: a lock left held is found by the follow-up calls or by the mutex probe at quiescence"}, commonAssume...)})
 }
